@@ -148,7 +148,7 @@ def _conc_configs(rng, big):
     for cap in (32, 64):
         mx = cap // 8
         for c0 in (0, 2**31 - cap, 2**31 - 8, 2**40 + 8 * rng.randrange(0, cap // 8)):
-            for variant in range(3 if big else 2):
+            for variant in range(2):
                 tys = rng.sample(LEGAL, len(LEGAL))   # distinct types: an empty payload must not make two messages identical
                 pre = []
                 if variant == 1:
@@ -172,14 +172,14 @@ def _conc_cases(rng, big):
         for a in range(1, nr):
             scheds.append([1] * a + [0] * nt)
         if big:
-            for a in range(1, nt, 2):
-                for b in range(1, nr, 2):
+            for a in range(1, nt, 3):
+                for b in range(1, nr, 3):
                     scheds.append([0] * a + [1] * b + [0] * nt)
-            for a in range(1, nr, 2):
-                for b in range(1, nt, 2):
+            for a in range(1, nr, 3):
+                for b in range(1, nt, 3):
                     scheds.append([1] * a + [0] * b + [1] * nr)
         # random schedules with bursts (many pre-emptions)
-        for _ in range(120 if big else 12):
+        for _ in range(80 if big else 12):
             sc = []
             while len(sc) < nt + nr:
                 sc += [rng.randrange(0, 2)] * rng.choice([1, 1, 2, 3, 5, 8, 13])
@@ -204,7 +204,7 @@ def generate(rng, tier):
 def _seq_cases(rng, big):
     cases = []
     caps = [32, 64, 64, 128, 128, 256, 512, 1024, 4096]
-    reps = 6 if big else 1
+    reps = 4 if big else 1
     for _ in range(reps):
         for cap in caps:
             for c0 in _c0s(rng, cap, big):
